@@ -7,6 +7,11 @@ ENGINES = [
 NOT_APPLICABLE = {}
 _NOTE = 'Trusted base: compiler + sanitizer runtimes, the engine in harness/engine.h, and the independent reference oracle named in the technique (self-tested at every start). Verdict is "held on everything explored", not absence.'
 TEXT = {
+ 'C15': dict(engine='pbt+sweep', design_ref='DESIGN.md 5/C15',
+   technique='grammar-based property testing: texts rendered from generated fields, denoted value computed independently in __int128',
+   level_text='~4*10^5 generated date-time and duration texts per quick run (fields at, below and above every range, years and magnitudes to and beyond 2^64, all target-limit neighbourhoods), each parsed into 14 time_point and 14 duration types plus time_t and tm and judged against the value the text denotes: exact value (fraction rounded, either neighbour on ties), out_of_range, or invalid_argument; every fraction value up to 6 digits exhaustively; mutated garbage for totality; all under ASan/UBSan and in two string widths.',
+   level_note=_NOTE),
+
  'C14': dict(engine='sweep+pbt', design_ref='DESIGN.md 5/C14',
    technique='exhaustive calendar sweep + property-based testing vs independent calendar reference (Rata-Die, __int128)',
    level_text='Every day of a 30,000-year range is printed in seven precisions and two representation widths, compared character by character with an independent calendar and parsed back; every second of the leap/century/epoch boundary days likewise; ~3*10^5 generated extreme and random instants and durations per quick run are printed, compared, parsed back (also from UTF-16/32 text), read by an independent ISO-8601 duration reader and passed through the MsgPack timestamp, under ASan/UBSan.',
